@@ -14,6 +14,11 @@
 // for odd child ids; both reach the same pthread_create, so the model does not distinguish them.
 // The value a thread function returns is given by the case (`r <t> <v>`, 0 <= v < 2^32; default 100 + t), the initial
 // semaphore count by the case head (up to 2^31 - 1).
+// STATIC flavour (round 6; case head `@n sig0 sem0 auto 1`): the scenario runs on one object of each class with STATIC STORAGE
+// DURATION, defined in this translation unit, which is the first object on the link line - so they are constructed before
+// main() and BEFORE the static initialisers of the library's translation units (a global lock in an application's own TU).
+// `startf=<c>`: Thread::start whose pthread_create fails (the virtual pthread_create writes a stale handle into its output
+// parameter, as glibc does, and returns EAGAIN); a later join that hands such a handle to pthread_join prints `! stale-join`.
 // Deadline probe lines `dl <cls> <sec> <nsec>`: the abstime the timed wait handed to its primitive; when the primitive
 // measures it against another clock than CLOCK_REALTIME (attribute of the condition variable, clock* call) and the pair is
 // valid, it is converted to the CLOCK_REALTIME instant at which that clock reaches it and ` clk=<id>` is appended.
@@ -29,16 +34,22 @@
 #include "sync_sched.h"
 
 enum Op { SIGSET, SIGRESET, SIGWAIT, SIGWAITT, MONLOCK, MONTRY, MONUNLOCK, MONWAIT, MONWAITT, MONSET,
-          LOCK, TRYLOCK, UNLOCK, SEMSIGNAL, SEMWAIT, SEMWAITT, SEMTRY, START, JOIN, CSENTER, CSLEAVE, NOPS };
+          LOCK, TRYLOCK, UNLOCK, SEMSIGNAL, SEMWAIT, SEMWAITT, SEMTRY, START, JOIN, CSENTER, CSLEAVE, STARTF, NOPS };
 static const char* opname[NOPS] = { "sigset", "sigreset", "sigwait", "sigwaitt", "monlock", "montry", "monunlock", "monwait",
-  "monwaitt", "monset", "lock", "trylock", "unlock", "semsignal", "semwait", "semwaitt", "semtry", "start", "join", "csenter", "csleave" };
-static bool has_arg(int k) { return k == SIGWAITT || k == MONWAITT || k == SEMWAITT || k == START || k == JOIN; }
+  "monwaitt", "monset", "lock", "trylock", "unlock", "semsignal", "semwait", "semwaitt", "semtry", "start", "join", "csenter", "csleave", "startf" };
+static bool has_arg(int k) { return k == SIGWAITT || k == MONWAITT || k == SEMWAITT || k == START || k == JOIN || k == STARTF; }
+
+// objects with static storage duration: constructed before main and before the static initialisers of the library's
+// translation units (this TU comes first on the link line)
+static Signal g_sig; static Monitor g_mon; static Mutex g_mtx; static Semaphore g_sem(0);
+static const long long G_SEM_MAX = 4096;          // the static semaphore is brought to sem0 by that many posts
 
 struct ScOp { int kind; long long arg; };
 struct Ctx { int tid; ScOp ops[64]; int nops; };
 static Ctx ctx[VS_MAXT];
 
-static int n_thr, cfg_sig0, cfg_auto; static long long cfg_sem0;
+static int n_thr, cfg_sig0, cfg_auto, cfg_static; static long long cfg_sem0;
+static bool sem_is_static;
 static unsigned cfg_result[VS_MAXT];               // value thread t's function returns (op line `r <t> <v>`, default 100 + t)
 static bool started;
 static Signal* sig; static Monitor* mon; static Mutex* mtx; static Semaphore* sem; static Thread* th[VS_MAXT];
@@ -100,18 +111,23 @@ static unsigned scenario(void* arg)
     case SEMWAIT: v = sem->wait() ? 1 : 0; break;
     case SEMWAITT: v = sem->wait((int64)o.arg) ? 1 : 0; timedfalse = !v; break;
     case SEMTRY: v = sem->tryWait() ? 1 : 0; break;
-    case START: {
+    case START: case STARTF: {
       int ch = (int)o.arg;
+      if(o.kind == STARTF) vs_fail_next_create(1);    // the next pthread_create of this thread fails (EAGAIN, stale handle written)
       if(ch < 0 || ch >= VS_MAXT) v = 0;
       else if(ch & 1) { runner[ch].c = &ctx[ch]; v = th[ch]->start(runner[ch], &Runner::run) ? 1 : 0; }
       else v = th[ch]->start((uint (*)(void*))scenario, &ctx[ch]) ? 1 : 0;
+      vs_fail_next_create(0);                          // start() refused before it reached pthread_create
       break; }
     case JOIN: {
       int ch = (int)o.arg;
       if(ch >= 0 && ch < VS_MAXT) {
         bool had = th[ch]->thread != 0;
+        int stale0 = vs_stale_joins();
         v = (long long)th[ch]->join();
         if(had) ev("J%d:%d:%lld", t, ch, v);
+        if(vs_stale_joins() != stale0)
+          printf("%ld ! stale-join thread %d: Thread::join handed pthread_join a handle that no successful pthread_create returned (left in the object by a failed start)\n", cur_case, ch);
       }
       break; }
     case CSENTER: v = ++occ; break;
@@ -133,10 +149,22 @@ static void materialise()
   if(started) return;
   started = true;
   vs_reset(n_thr);
-  sig = new Signal(cfg_sig0 != 0);
-  mon = new Monitor();
-  mtx = new Mutex();
-  sem = new Semaphore((uint)cfg_sem0);
+  if(cfg_static) {
+    // the controller thread is not a virtual thread: these calls run on the real primitives
+    sig = &g_sig; if(cfg_sig0) sig->set(); else sig->reset();
+    mon = &g_mon; mon->signaled = false;
+    mtx = &g_mtx;
+    sem_is_static = cfg_sem0 <= G_SEM_MAX;
+    if(sem_is_static) { sem = &g_sem; for(long long k = 0; k < cfg_sem0; ++k) sem->signal(); }
+    else sem = new Semaphore((uint)cfg_sem0);
+  }
+  else {
+    sig = new Signal(cfg_sig0 != 0);
+    mon = new Monitor();
+    mtx = new Mutex();
+    sem = new Semaphore((uint)cfg_sem0);
+    sem_is_static = false;
+  }
   for(int i = 0; i < VS_MAXT; ++i) th[i] = new Thread();
   vs_reg_mutex(sig->mdata, 0); vs_reg_cond(sig->cdata, 0);
   vs_reg_mutex(mon->mdata, 1); vs_reg_cond(mon->cdata, 1);
@@ -242,6 +270,7 @@ static void on_begin(long c, vh::Tok& t)
   cfg_sig0 = t.n > 3 ? atoi(t.v[3]) : 0;
   cfg_sem0 = t.n > 4 ? atoll(t.v[4]) : 0;
   cfg_auto = t.n > 5 ? atoi(t.v[5]) : 0;
+  cfg_static = t.n > 6 ? atoi(t.v[6]) : 0;
   started = false;
   for(int i = 0; i < VS_MAXT; ++i) { ctx[i].tid = i; ctx[i].nops = 0; cfg_result[i] = 100u + (unsigned)i; }
 }
@@ -277,7 +306,12 @@ static void on_end(long)
 {
   if(!started) return;
   vs_teardown();
-  delete sig; delete mon; delete mtx; delete sem;
+  if(cfg_static) {
+    // the real primitives of the static objects were never touched by the virtual threads; undo what materialise() did
+    sig->reset(); mon->signaled = false;
+    if(sem_is_static) while(sem->tryWait()) {} else delete sem;
+  }
+  else { delete sig; delete mon; delete mtx; delete sem; }
   for(int i = 0; i < VS_MAXT; ++i) delete th[i];   // ~Thread -> join -> wrapper is inert after teardown
   started = false;
 }
